@@ -33,11 +33,16 @@ func c12Schema(order int) *j.Schema {
 	tb.Rels["s"] = rs
 	types := []j.Type{c12A.Type(false), tb, {Name: "c"}}
 	perm := mc.Perm(3, order)
+	defer func() {}()
 	s := &j.Schema{}
 	for _, i := range perm {
 		if err := s.AddType(types[i]); err != nil {
 			panic(err)
 		}
+	}
+	// a struct-backed type that declares nothing but its ID
+	if err := s.AddType(TypeD{Name: "idonly"}.Type(false)); err != nil {
+		panic(err)
 	}
 	FixFromOne(s)
 	return s
@@ -123,6 +128,20 @@ func c12Ops() []c12Op {
 			r.Set("z", "set")
 			r.Set("back", []string{"k"})
 			return c18Read(r)
+		}},
+		{"GetType(idonly).New()+Set(id)", func(s *j.Schema) string {
+			t := s.GetType("idonly")
+			r := t.New()
+			before := fmt.Sprint(r.Get("id"))
+			r.Set("id", "mine")
+			return before + "->" + fmt.Sprint(r.Get("id"))
+		}},
+		{"UnmarshalDocument(idonly)", func(s *j.Schema) string {
+			d, err := j.UnmarshalDocument([]byte(`{"data":{"type":"idonly","id":"fromdoc"}}`), s)
+			if err != nil {
+				return "error: " + err.Error()
+			}
+			return c18Read(d.Data.(j.Resource))
 		}},
 		{"GetType(c).New()+Get", func(s *j.Schema) string {
 			t := s.GetType("c")
@@ -328,8 +347,19 @@ func c12SoloResult(oi, order int) string {
 	return r
 }
 
-// representative ops: URL parse, unmarshal, New+Set (struct), marshal, Check, Rels
-var c12Rep = []int{0, 3, 7, 10, 13, 14}
+// c12Op returns the index of the operation whose name starts with prefix.
+func c12OpIdx(prefix string) int {
+	for i, o := range c12Ops() {
+		if strings.HasPrefix(o.name, prefix) {
+			return i
+		}
+	}
+	panic("no operation " + prefix)
+}
+
+// representative ops: URL parse, unmarshal, New+Set (struct), New+Set (ID-only struct), marshal, Check, Rels
+var c12Rep = []int{c12OpIdx("NewURLFromRaw(/a/1"), c12OpIdx("UnmarshalDocument(struct"), c12OpIdx("GetType(a)"), c12OpIdx("GetType(idonly)"),
+	c12OpIdx("MarshalDocument"), c12OpIdx("Check"), c12OpIdx("Rels")}
 
 func c12Pairs(x *mc.Exec) {
 	n := len(c12Ops())
@@ -351,7 +381,7 @@ func c12Pairs(x *mc.Exec) {
 func c12Triples(x *mc.Exec) {
 	rep := c12Rep
 	if !Thorough() {
-		rep = []int{0, 7, 14}
+		rep = []int{c12OpIdx("NewURLFromRaw(/a/1"), c12OpIdx("GetType(idonly)"), c12OpIdx("Rels")}
 	}
 	a := rep[x.Choose(len(rep), "op of thread 0")]
 	b := rep[x.Choose(len(rep), "op of thread 1")]
@@ -362,7 +392,9 @@ func c12Triples(x *mc.Exec) {
 // statement granularity for the pairs in which a schema query runs against a
 // parser or (un)marshaler (thorough tier)
 func c12Fine(x *mc.Exec) {
-	pairs := [][2]int{{14, 14}, {14, 13}, {13, 13}, {14, 0}, {14, 7}, {13, 7}, {11, 14}, {12, 14}, {7, 3}, {9, 6}}
+	rels, chk, url, newA, has, get, unm, newC, part, idonly := c12OpIdx("Rels"), c12OpIdx("Check"), c12OpIdx("NewURLFromRaw(/a/1"), c12OpIdx("GetType(a)"), c12OpIdx("HasType"), c12OpIdx("GetType"+""), c12OpIdx("UnmarshalDocument(struct"), c12OpIdx("GetType(c)"), c12OpIdx("UnmarshalPartialResource(c)"), c12OpIdx("GetType(idonly)")
+	_ = get
+	pairs := [][2]int{{rels, rels}, {rels, chk}, {chk, chk}, {rels, url}, {rels, newA}, {chk, newA}, {has, rels}, {c12OpIdx("GetType"), rels}, {newA, unm}, {newC, part}, {idonly, idonly}, {idonly, c12OpIdx("UnmarshalDocument(idonly")}}
 	p := pairs[x.Choose(len(pairs), "pair")]
 	c12Interleave(x, []int{p[0], p[1]}, 0, true)
 }
